@@ -121,6 +121,19 @@ func TestVerifDriver(t *testing.T) {
 				}
 			case 2:
 				b[r.Intn(len(b))] = "qpzry9x8"[r.Intn(8)]
+			case 3: // upper case with U+212A KELVIN SIGN for every K of the data part
+				var nb []byte
+				for i, c := range b {
+					if c >= 'a' && c <= 'z' {
+						c -= 32
+					}
+					if c == 'K' && i > len(hrp) {
+						nb = append(nb, 0xe2, 0x84, 0xaa)
+					} else {
+						nb = append(nb, c)
+					}
+				}
+				b = nb
 			}
 			do("address.Parse", M{"s": vInts(b)})
 		}
